@@ -54,7 +54,9 @@ def _case(draw, tier):
             "gswitch": draw(st.sampled_from([None, None, None, 0.25, 0.5, 0.75])),
             # two backward passes through one forward solve (retain_graph=True: two losses of one trajectory); the gradients
             # compared are those of the second pass as well as the first
-            "twice": draw(st.sampled_from([False, False, True]))}
+            "twice": draw(st.sampled_from([False, False, True])),
+            # the loss looks at the returned extra solver state only (the solution ys is not part of the differentiated graph)
+            "extras_only": draw(st.sampled_from([False, False, False, True]))}
 
 
 def strategy(tier):
@@ -116,9 +118,19 @@ def run_case(case):
             w = w * torch.tensor(case.get("mask", [1] * len(ts)), dtype=ys.dtype).reshape(-1, 1, 1)
             wz = torch.randn(extra[2].shape, generator=g, dtype=ys.dtype)
         loss = (ys * w).sum()
-        if case.get("use_z"):
+        if case.get("extras_only"):
+            loss = (extra[2] * wz).sum() + 0.3 * (extra[0] * wz).sum() + 0.2 * (extra[1].reshape(extra[1].size(0), -1)[:, :1] * wz[:, :1]).sum()
+        elif case.get("use_z"):
             loss = loss + (extra[2] * wz).sum() + 0.3 * (extra[0] * wz).sum()
         first_pass = []
+        if not loss.requires_grad:
+            # nothing in the loss is connected to y0 or the parameters on this side (must then be so on the other side too:
+            # every gradient is reported as missing and compared below)
+            named = [("y0", None)] + [(n_, None) for n_, _ in (selected if selected is not None else sde.named_parameters())]
+            grads.append((ys.detach(), sorted(named[1:], key=lambda kv: kv[0]) if selected is not None else named))
+            if selected is not None:
+                grads[-1] = (ys.detach(), [("y0", None)] + grads[-1][1])
+            continue
         if case.get("twice"):
             w2 = torch.randn(ys.shape, generator=torch.Generator().manual_seed(case["wseed"] + 1), dtype=ys.dtype)
             inputs = ([y0] if y0.requires_grad else []) + ([p_ for _, p_ in selected] if selected is not None
@@ -179,5 +191,7 @@ def run_case(case):
         labels.append("diffusion_regime_switch")
     if case.get("twice"):
         labels.append("two_backward_passes_through_one_solve")
+    if case.get("extras_only"):
+        labels.append("loss_on_returned_extra_state_only")
     return Result(nontrivial=n >= 4 and len(case["cuts"]) >= 2, labels=labels, checks=checks,
                   metrics={"grad_relerr": worst, "steps": n})
